@@ -56,7 +56,7 @@ func runIP6(a []string) string {
 func runIP6Pl(a []string) string {
 	c, l, seed, hop := atoi(a[0]), atoi(a[1]), uint64(atoi(a[2])), byte(atoi(a[3]))
 	srcb, dstb := lib.UnHex(a[4]), lib.UnHex(a[5])
-	nh, mode, payload := byte(atoi(a[6])), a[7], lib.UnHex(a[8])
+	nh, mode, payload := byte(atoi(a[6])), a[7], sarg(lib.UnHex(a[8]))
 	if payload == nil {
 		payload = []byte{}
 	}
@@ -100,11 +100,11 @@ func runIP6Pl(a []string) string {
 
 func runFrame6(a []string) string {
 	c, l, seed := atoi(a[0]), atoi(a[1]), uint64(atoi(a[2]))
-	smac, dmac := exact(lib.UnHex(a[3])), exact(lib.UnHex(a[4]))
+	smac, dmac := marg(lib.UnHex(a[3])), marg(lib.UnHex(a[4]))
 	hop := byte(atoi(a[5]))
 	sipb, dipb := lib.UnHex(a[6]), lib.UnHex(a[7])
 	sp, dp := uint16(atoi(a[8])), uint16(atoi(a[9]))
-	data := lib.UnHex(a[10])
+	data := sarg(lib.UnHex(a[10]))
 	buf, full, old := mkbuf(c, l, seed)
 	ether := packet.EncodeEther(buf, 0x86dd, net.HardwareAddr(smac), net.HardwareAddr(dmac))
 	ip6 := packet.EncodeIP6(ether.Payload(), hop, addr(sipb), addr(dipb))
@@ -153,7 +153,7 @@ func rbARP(p packet.ARP) string {
 
 func runARP(a []string) string {
 	c, l, seed, op := atoi(a[0]), atoi(a[1]), uint64(atoi(a[2])), uint16(atoi(a[3]))
-	smac, sip, dmac, dip := exact(lib.UnHex(a[4])), lib.UnHex(a[5]), exact(lib.UnHex(a[6])), lib.UnHex(a[7])
+	smac, sip, dmac, dip := marg(lib.UnHex(a[4])), lib.UnHex(a[5]), marg(lib.UnHex(a[6])), lib.UnHex(a[7])
 	buf, full, old := mkbuf(c, l, seed)
 	out := packet.EncodeARP(buf, op, packet.Addr{MAC: net.HardwareAddr(smac), IP: addr(sip)}, packet.Addr{MAC: net.HardwareAddr(dmac), IP: addr(dip)})
 	if c >= 28 && len(smac) == 6 && len(dmac) == 6 && len(sip) == 4 && len(dip) == 4 {
@@ -181,7 +181,7 @@ func rbEcho(p packet.ICMPEcho) string {
 func runEcho(a []string) string {
 	c, l, seed := atoi(a[0]), atoi(a[1]), uint64(atoi(a[2]))
 	t, code, id, seq := byte(atoi(a[3])), byte(atoi(a[4])), uint16(atoi(a[5])), uint16(atoi(a[6]))
-	data := lib.UnHex(a[7])
+	data := sarg(lib.UnHex(a[7]))
 	buf, full, old := mkbuf(c, l, seed)
 	out := packet.EncodeICMPEcho(buf, t, code, id, seq, data)
 	if 8+len(data) <= c {
@@ -204,7 +204,7 @@ func llaStr(m net.HardwareAddr) string {
 
 func runNA(a []string) string {
 	ro, so, ov := a[0] == "T", a[1] == "T", a[2] == "T"
-	tip, tmac := lib.UnHex(a[3]), exact(lib.UnHex(a[4]))
+	tip, tmac := lib.UnHex(a[3]), marg(lib.UnHex(a[4]))
 	b := packet.ICMP6NeighborAdvertisementMarshal(ro, so, ov, packet.Addr{MAC: net.HardwareAddr(tmac), IP: addr(tip)})
 	p := packet.ICMP6NeighborAdvertisement(b)
 	if len(tip) == 16 && len(tmac) == 6 {
@@ -235,7 +235,7 @@ func runNA(a []string) string {
 }
 
 func runNS(a []string) string {
-	tip, slla := lib.UnHex(a[0]), exact(lib.UnHex(a[1]))
+	tip, slla := lib.UnHex(a[0]), marg(lib.UnHex(a[1]))
 	b, err := packet.ICMP6NeighborSolicitationMarshal(addr(tip), net.HardwareAddr(slla))
 	if err != nil {
 		return "err:EOther"
@@ -302,7 +302,7 @@ func walkHitsSpecial(p []byte) bool {
 }
 
 func runDNSQ(a []string) string {
-	id, fl, name, qt := uint16(atoi(a[0])), uint16(atoi(a[1])), lib.UnHex(a[2]), uint16(atoi(a[3]))
+	id, fl, name, qt := uint16(atoi(a[0])), uint16(atoi(a[1])), sarg(lib.UnHex(a[2])), uint16(atoi(a[3]))
 	p := packet.EncodeDNSQuery(id, fl, name, qt)
 	if plainName(name) && len(name) <= 255 {
 		d, ok := refDNSQuery(p)
@@ -430,7 +430,7 @@ func dhcpOnce(a []string) (obs string, wire []byte) {
 	opcode, mt := byte(atoi(a[3])), byte(atoi(a[4]))
 	var ch net.HardwareAddr
 	if a[5] == "T" {
-		ch = net.HardwareAddr(lib.UnHex(a[6]))
+		ch = net.HardwareAddr(sarg(lib.UnHex(a[6])))
 		if ch == nil {
 			ch = net.HardwareAddr{}
 		}
@@ -438,17 +438,19 @@ func dhcpOnce(a []string) (obs string, wire []byte) {
 	ci, yi := addr(lib.UnHex(a[7])), addr(lib.UnHex(a[8]))
 	var xid []byte
 	if a[9] == "T" {
-		xid = lib.UnHex(a[10])
+		xid = sarg(lib.UnHex(a[10]))
 		if xid == nil {
 			xid = []byte{}
 		}
 	}
 	bc := a[11] == "T"
 	kvs := parseOptsTok(a[12])
-	order := lib.UnHex(a[13])
+	// the requested order first, the option values directly behind it (as in a received message, where the
+	// parameter request list is followed by the next option)
+	order := sarg(lib.UnHex(a[13]))
 	opts := packet.DHCP4Options{}
 	for _, kv := range kvs {
-		opts[packet.DHCP4OptionCode(kv.k)] = kv.v
+		opts[packet.DHCP4OptionCode(kv.k)] = sarg(kv.v)
 	}
 	buf, full, old := mkbuf(c, l, seed)
 	defer func() {
@@ -717,7 +719,7 @@ func (g *gen) emitDHCP(c, l int, kvs []optKV, order []byte) {
 
 func registerMore(r *lib.Run) {
 	r.Register("ip6", runIP6)
-	r.Register("ip6pl", runIP6Pl)
+	r.Register("ip6pl", rec("ip6pl", runIP6Pl))
 	r.Register("frame6", rec("frame6", runFrame6))
 	r.Register("arp", rec("arp", runARP))
 	r.Register("echo", rec("echo", runEcho))
